@@ -103,6 +103,20 @@ def generate(g, tier):
                 cases.append(dict(op='compile_file', file='proj/main.txt', files={'proj/main.txt': main, 'proj/lib.txt': lib}, meta=dict(family='import-in-block', exp=exp)))
                 main2 = f'{pre}{blk}\n    {kw} lib{call}\nRUN g\nSTRING end'
                 cases.append(dict(op='compile_file', file='proj/main.txt', files={'proj/main.txt': main2, 'proj/lib.txt': lib}, meta=dict(family='import-in-block', exp=['err', 'undefined'])))
+    # a parameter is bound to the ARGUMENT even when the calling scope has a variable of the same name with another value: a global, a
+    # loop counter, the caller's own parameters handed on in another order
+    for _ in range(count(tier, 40, 300)):
+        a, b = r.sample(range(1, 50), 2)
+        shape = r.choice(['global', 'counter', 'swap', 'nested-branch'])
+        if shape == 'global':
+            t, out = f'VAR x {a}\nFUNC show x\n    $STRING "x="+x\nRUN show {b}\nRUN show x+1', [f'STRING x={b}', f'STRING x={b + 1}']
+        elif shape == 'counter':
+            t, out = 'FUNC show i\n    $STRING "i="+i\nREPEAT i,3\n    RUN show (i+1)*10', ['STRING i=10', 'STRING i=20', 'STRING i=30']
+        elif shape == 'swap':
+            t, out = f'FUNC inner p,q\n    $STRING p+","+q\nFUNC outer p,q\n    RUN inner q,p\nRUN outer {a},{b}', [f'STRING {b},{a}']
+        else:
+            t, out = f'VAR v {a}\nFUNC f v\n    IF v == {b}\n        $STRING "arg "+v\n    ELSE\n        $STRING "stale "+v\nIF TRUE\n    REPEAT 1\n        RUN f {b}', [f'STRING arg {b}']
+        cases.append(dict(op='compile', src=dict(text=t), meta=dict(family='param-name-clash', exp=['ok', out, [], None])))
     return cases
 
 
